@@ -187,6 +187,7 @@ def run_reached(case):
         A.populate(fs, rng, nfiles=rng.randint(4, 16), hostile=0.3)
         nsteps = 8 if tier == "quick" else 14
         prev = None
+        heal = []
         # a third of the cases: a whole disk is emptied at some step and the next sync is partial / killed, so that a
         # disk with nothing but pending deletions has to survive a save
         empty_at = rng.randint(2, nsteps - 2) if (idx % 3 == 1 and len(a.disks) >= 2) else None
@@ -232,12 +233,21 @@ def run_reached(case):
                 cmd = "sync"
                 args = ["-E", "-Z"] + args
             elif k < 0.78:
-                # silent damage then scrub -> bad marks
+                # silent damage then scrub -> bad marks; the damage itself is undone right after the scrub (only the marks are
+                # wanted: damaged bytes left on disk would later be taken for the user's data by a re-sync of that file)
+                heal = []
                 try:
                     c = a.load_content()
                     from .. import dmg
                     tg = [(f, i) for f in c.files for i, b in enumerate(f.blocks) if b[1] == BLK]
                     for (f, i) in rng.sample(tg, min(len(tg), rng.randint(0, 3))):
+                        pth = os.path.join(os.fsencode(a.ddir(a.disk_names.index(c.disk_name(f.disk).decode()))), f.sub)
+                        try:
+                            st_ = os.lstat(pth)
+                            with open(pth, "rb") as fh:
+                                heal.append((pth, fh.read(), st_.st_atime_ns, st_.st_mtime_ns))
+                        except OSError:
+                            continue
                         dmg.damage_file_block(a, c, f, i, rng, "byte")
                 except (FileNotFoundError, cnt.DecodeError):
                     pass
@@ -251,6 +261,14 @@ def run_reached(case):
             else:
                 cmd, args = "fix", ["-e"]
             r = a.cmd(cmd, *args, variant=variant, shim={"time": T, "log": False})
+            for (pth, data_, at_, mt_) in (reversed(heal) if cmd == "scrub" else []):
+                try:
+                    with open(pth, "wb") as fh:
+                        fh.write(data_)
+                    os.utime(pth, ns=(at_, mt_))
+                except OSError:
+                    pass
+            heal = []
             if cmd == "touch":
                 fs.adopt_touch()
             hist.append((cmd, args, r.rc))
